@@ -157,7 +157,9 @@ class Sim:
             counts = {}
 
             def on_step(s):
-                if sim.stop_at_step is not None and s.step == sim.stop_at_step and sim.stop_done_at is None:
+                # the stop request arrives "at any moment of its loop": a request that precedes the start of the loop is postponed
+                # to the first step at which the loop is running
+                if sim.stop_at_step is not None and s.step >= sim.stop_at_step and sim.stop_done_at is None and sim.runner.running:
                     sim.stop_done_at = s.step
                     sim.runner.stop_runner_loop()
                 if sim.on_step_extra:
